@@ -494,6 +494,46 @@ pub fn run(ctx: &mut Ctx) {
             Err(p) => Verdict::Fail(format!("PANIC while reading a well-formed archive: {p}")),
         }
     });
+    // entry counts around the 16-bit limit from the independent builder: 65535 entries in a CLASSIC end
+    // record (count field 0xFFFF, no ZIP64 records - what CPython and many tools write), with ZIP64 end
+    // records, and 65536 entries
+    #[derive(Clone, Debug, Serialize, Deserialize, Hash)]
+    struct FCount {
+        n: u32,
+        zip64_end: Option<[bool; 3]>,
+        prefix: u32,
+    }
+    let fc: Vec<FCount> = {
+        let mut v = Vec::new();
+        for n in ctx.q(vec![65535u32, 65536], vec![65534, 65535, 65536, 65537]) {
+            for z in [None, Some([false; 3]), Some([true, true, true])] {
+                if n > 65535 && z.is_none() {
+                    v.push(FCount { n, zip64_end: None, prefix: 0 });
+                    continue;
+                }
+                v.push(FCount { n, zip64_end: z, prefix: if z.is_some() { 0 } else { 333 } });
+            }
+        }
+        v
+    };
+    ctx.enumerate::<FCount>("counts", fc.len() as u64, &|i| fc[i as usize].clone(), &|c: &FCount, info: &mut Info| {
+        info.nontrivial = true;
+        info.label(if c.zip64_end.is_none() && c.n <= 65535 { "classic-end-record" } else { "zip64-end-records" });
+        let entries: Vec<refzip::EntrySpec> = (0..c.n).map(|i| refzip::EntrySpec::simple(format!("c{i}").as_bytes(), 0, if i % 7919 == 2 { refzip::Content::Bytes(b"some data".to_vec()) } else { refzip::Content::Bytes(vec![]) })).collect();
+        let mut spec = ArchiveSpec::plain(entries);
+        spec.zip64_end = c.zip64_end;
+        spec.prefix = refzip::Content::Rep { byte: 0x2e, len: c.prefix };
+        spec.comment = b"count".to_vec();
+        let b = match build::build(&spec) {
+            Ok(b) => b,
+            Err(e) => return Verdict::Fail(format!("harness: {e}")),
+        };
+        match catch(|| check_spec(&spec, &b, &[4096])) {
+            Ok(Ok(())) => Verdict::Pass,
+            Ok(Err(m)) => Verdict::Fail(format!("{} entries ({}): {m}", c.n, if c.zip64_end.is_some() || c.n > 65535 { "ZIP64 end records" } else { "classic end record, count field 0xFFFF" })),
+            Err(p) => Verdict::Fail(format!("PANIC while reading a well-formed archive: {p}")),
+        }
+    });
     // third producer: Info-ZIP zip (data descriptors -fd, forced ZIP64 -fz, store/deflate/bzip2)
     let niz = ctx.q(150, 3000);
     ctx.explore::<IzSpec>("infozip", niz, &iz_spec, &|s: &IzSpec, info: &mut Info| {
